@@ -28,7 +28,9 @@ RULE = (
     "-1, 0, 1, 2, 7, 511, 512, 513, 1024, 4096 (plain streams) and >=512 with an occasional <512 (legacy "
     "stream) interleaved with 0-3 queries of hash_value/total_read at random points, every intermediate "
     "answer judged against hashlib over the bytes handed out so far; short reads of the underlying file "
-    "imposed by a cut oracle; algorithm names md5, sha1, "
+    "imposed by a cut oracle; algorithm names = every fixed-length algorithm of this interpreter's "
+    "hashlib.algorithms_available (incl. the ones only hashlib.new resolves: md5-sha1, sha512_224, sm3, "
+    "ripemd160, ...; shake_* skipped), i.e. md5, sha1, "
     "sha224..sha512, sha3, blake2, sha512_256, blake3, md5-dos2unix in exact, upper, capitalised and "
     "mixed-case spellings; LF/CRLF twins; real files through hash_file incl. files of 2^20 +- 1 bytes. "
     "A case is non-trivial when the content is non-empty and it was read in >= 2 chunks or through the "
@@ -53,9 +55,28 @@ IMPORTS_MD5 = IMPORTS + "\nFrom DvcData Require Import Proofs.HashStreamMD5."
 
 TEXT = frozenset(range(32, 127)) | {10, 13, 9, 12, 8}
 D2U = "md5-dos2unix"
-# fixed-length digests this interpreter's hashlib offers (asked of hashlib itself, not of dvc_data)
-ALGS = [a for a in ["md5", "sha1", "sha224", "sha256", "sha384", "sha512", "blake2b", "blake2s", "sha3_256",
-                    "sha3_512", "sha512_256"] if a in hashlib.algorithms_available] + ["blake3", D2U]
+# the algorithm pool is asked of this interpreter's hashlib itself (not of dvc_data): every name in
+# hashlib.algorithms_available that hashlib.new can construct with a fixed-length digest and that
+# reports itself under that name (shake_* need a length and are skipped), plus blake3 and the
+# legacy name.  FALLBACK = the names hashlib has no constructor attribute for (md5-sha1,
+# sha512_224, sm3, ...): get_hasher reaches them only through its hashlib.new fallback.
+
+
+def _hashlib_pool():
+    pool = []
+    for a in sorted(hashlib.algorithms_available):
+        try:
+            h = hashlib.new(a)
+            if h.name == a and a == a.lower() and len(h.hexdigest()) > 0:
+                pool.append(a)
+        except (TypeError, ValueError):
+            continue
+    return pool
+
+
+PLAIN = _hashlib_pool()
+FALLBACK = [a for a in PLAIN if not hasattr(hashlib, a)]
+ALGS = PLAIN + ["blake3", D2U]
 
 
 # ------------------------------------------------------------------------------------------
@@ -451,6 +472,8 @@ def spell(rng, alg):
 def pick_alg(rng, legacy_share=0.4):
     if rng.random() < legacy_share:
         return D2U
+    if FALLBACK and rng.random() < 0.2:
+        return rng.choice(FALLBACK)  # names only the hashlib.new fallback of get_hasher can resolve
     return rng.choice(ALGS[:-1])
 
 
@@ -743,6 +766,7 @@ def run(ctx):
             "fun i => let '(name, chunk, content, cuts) := i in md5_fobj name chunk content cuts",
             items, shard=3)
     ctx.extra["algorithms_available"] = avail
+    ctx.extra["algorithm_pool"] = {"from_hashlib": PLAIN, "only_via_hashlib_new": FALLBACK, "extra": ["blake3", D2U]}
 
 
 def strip(case):
@@ -878,7 +902,8 @@ def load_corpus():
                 with open(os.path.join(d, n)) as f:
                     data = json.load(f)
                 out.extend(data if isinstance(data, list) else [data])
-    return out
+    # a stored case that names an algorithm this interpreter's hashlib does not offer is skipped
+    return [c for c in out if "name" not in c or c["name"].lower() in ALGS]
 
 
 def replay_case(ctx, case):
